@@ -1,5 +1,5 @@
 /-
-L3 Exec — which inner transforms each portable algorithm calls, through which entry point, on which region of the
+L3 Exec — which inner transforms each portable algorithm (and each AVX / SSE algorithm that wraps inner transforms) calls, through which entry point, on which region of the
 caller's buffers and with which scratch region: a transcription of the `perform_fft_inplace / _out_of_place / _immut`
 bodies (and of `boilerplate_fft_oop!`'s in-place wrapper) of /repo/src/algorithm/*.rs, including the run-time choice
 between the caller's buffer and the extra scratch (`if inner_scratch.len() > buffer.len() { … }`).
@@ -45,6 +45,11 @@ def pickNonEmpty (a b : Region) : Region := if a.len > 0 then a else b
 inductive Algo where
   | mixedRadix | mixedRadixSmall | goodThomas | goodThomasSmall | raders | bluesteins (n : Nat)
   | radixN | radix4 | radix3     -- boilerplate_fft_oop!: identical call structure, separately generated scratch formulas
+  -- the crate-private SIMD algorithms that wrap inner transforms (reached through the AVX / SSE planners):
+  | avxMixedRadix                -- MixedRadix{2,3,4,5,6,7,8,9,11,12,16}xnAvx: one `boilerplate_mixedradix!` body
+  | avxRaders                    -- RadersAvx2
+  | avxBluesteins (n : Nat)      -- BluesteinsAvx
+  | sseRadix4                    -- SseRadix4 (boilerplate_fft_sse_oop!)
   deriving Repr, DecidableEq, Inhabited
 
 /-- the calls one *chunk* makes.  `len` = the algorithm's length; `s0`, `s1` the specs of its inner transforms
@@ -113,6 +118,34 @@ def calls (a : Algo) (e : EntryKind) (len : Nat) (s0 s1 : Spec) (adv : Nat) : Li
   | .radix3, .immut => [⟨0, .inplace, output, none, scratch⟩]
   | .radix3, .oop => [⟨0, .inplace, output, none, pickNonEmpty scratch input⟩]
   | .radix3, .inplace => [⟨0, .inplace, selfS, none, pickNonEmpty innerS buffer⟩]
+  -- avx_mixed_radix.rs `boilerplate_mixedradix!`: column butterflies (no inner call), row FFTs, transpose
+  | .avxMixedRadix, .inplace => [⟨0, .oop, buffer, some selfS, innerS⟩]
+  | .avxMixedRadix, .immut => [⟨0, .inplace, selfS, none, innerS⟩]
+  | .avxMixedRadix, .oop => [⟨0, .inplace, input, none, pickNonEmpty scratch output⟩]
+  -- avx_raders.rs: `scratch.split_at_mut(self.len())`, the inner FFTs run on `scratch[1..len]`
+  | .avxRaders, .inplace =>
+    let m := len - 1
+    let inner := pickNonEmpty (reg .scratch len (adv - len)) buffer
+    [⟨0, .inplace, reg .scratch 1 m, none, inner⟩, ⟨0, .inplace, reg .scratch 1 m, none, inner⟩]
+  | .avxRaders, .immut =>
+    let m := len - 1
+    [⟨0, .inplace, reg .output 1 m, none, reg .scratch 1 m⟩,
+     ⟨0, .inplace, reg .scratch 1 m, none, reg .scratch len (adv - len)⟩]
+  | .avxRaders, .oop =>
+    let m := len - 1
+    [⟨0, .inplace, reg .output 1 m, none, pickNonEmpty scratch (reg .input 1 m)⟩,
+     ⟨0, .inplace, reg .input 1 m, none, pickNonEmpty scratch (reg .output 1 m)⟩]
+  -- avx_bluesteins.rs: `split_at_mut(inner_fft_multiplier.len() * COMPLEX_PER_VECTOR)` (= inner length: the
+  -- constructor asserts that the inner length is a multiple of the vector width); out-of-place calls the immutable body
+  | .avxBluesteins _, _ =>
+    let M := s0.len
+    let x := reg .scratch 0 M
+    let is := reg .scratch M (adv - M)
+    [⟨0, .inplace, x, none, is⟩, ⟨0, .inplace, x, none, is⟩]
+  -- sse_radix4.rs: the base FFTs always get an EMPTY scratch (`&mut []`)
+  | .sseRadix4, .immut => [⟨0, .inplace, output, none, reg .scratch 0 0⟩]
+  | .sseRadix4, .oop => [⟨0, .inplace, output, none, reg .scratch 0 0⟩]
+  | .sseRadix4, .inplace => [⟨0, .inplace, selfS, none, reg .scratch 0 0⟩]
 
 /-- the advertised scratch length of (algorithm, entry) from the inner specs — the generated formulas -/
 def advertised (a : Algo) (e : EntryKind) (len : Nat) (s0 s1 : Spec) : Nat :=
@@ -142,6 +175,16 @@ def advertised (a : Algo) (e : EntryKind) (len : Nat) (s0 s1 : Spec) : Nat :=
   | .radix3, .inplace => Gen.radix3_inplace len s0
   | .radix3, .oop => Gen.radix3_oop len s0
   | .radix3, .immut => Gen.radix3_immut len s0
+  | .avxMixedRadix, .inplace => Gen.avxMixedRadix_inplace len s0
+  | .avxMixedRadix, .oop => Gen.avxMixedRadix_oop len s0
+  | .avxMixedRadix, .immut => Gen.avxMixedRadix_immut len s0
+  | .avxRaders, .inplace => Gen.avxRaders_inplace s0
+  | .avxRaders, .oop => Gen.avxRaders_oop s0
+  | .avxRaders, .immut => Gen.avxRaders_immut s0
+  | .avxBluesteins _, _ => Gen.avxBluesteins_scratch s0
+  | .sseRadix4, .inplace => Gen.sseRadix4_inplace len
+  | .sseRadix4, .oop => Gen.sseRadix4_oop len
+  | .sseRadix4, .immut => Gen.sseRadix4_immut len
 
 /-- what a call needs: scratch for its entry point -/
 def Call.need (c : Call) (s0 s1 : Spec) : Nat :=
